@@ -17,7 +17,12 @@ fn opt_cat(rng: &mut Rng, k: usize) -> Option<String> {
         2 => Some("footer-ascii".into()),
         3 => Some("f\u{fc}\u{df}-\u{6f22}-\u{1F980}".into()),
         4 => Some("{\"kid\":\"zVhMiPBP9fRf2snEcT7gFTioeA9COcNy9DfgL1W60haN\"}".into()),
-        _ => Some(rng.utf8_upto(40)),
+        _ => match k % 5 {
+            0 => Some(" ".into()),
+            1 => Some("\n".into()),
+            2 => Some("\u{3000}\t".into()),
+            _ => Some(rng.utf8_upto(40)),
+        },
     }
 }
 
